@@ -49,8 +49,15 @@ impl CopyHandle {
         // through another spelling, a symlink or a hard link):
         // creating the destination would truncate the source. A
         // failed probe of the destination is an error, not "absent".
-        if to.try_exists()? && is_same_file(from, to)? {
+        let exists = to.try_exists()?;
+        if exists && is_same_file(from, to)? {
             return Err(XcpError::InvalidDestination("Source and destination are the same file.").into());
+        }
+
+        // Like cp, do not write through a dangling symlink: that
+        // would create a file wherever the link happens to point.
+        if !exists && to.symlink_metadata().is_ok() {
+            return Err(XcpError::InvalidDestination("Not writing through a dangling symlink.").into());
         }
 
         if needs_backup(to, config)? {
